@@ -915,6 +915,122 @@ func (c *Ctx) runInputs(kinds *core.Kinds) {
 					whyG = ternary(generated, "every non-nil generated converter is added", "registration is filtered by "+extra)
 				}
 			}
+			// receiver: an element of the tail `list[len(b.convs):]` of the list that starts as a copy of the supplied
+			// converters and grows by every non-nil generated one (generated converters registered in one loop afterwards)
+			if ld, ok := recv.(*ssa.UnOp); ok {
+				if ia, ok := ld.X.(*ssa.IndexAddr); ok {
+					if sl, ok := ia.X.(*ssa.Slice); ok && sl.Low != nil && sl.High == nil {
+						isSuppliedLen := func(v ssa.Value) bool {
+							cl, ok := v.(*ssa.Call)
+							if !ok || core.CalleeName(cl.Common()) != "builtin.len" {
+								return false
+							}
+							fr, ok := core.AsFieldLoad(cl.Common().Args[0])
+							return ok && fr.Owner == "argBuilder" && strings.Contains(core.TypeStr(cl.Common().Args[0].Type()), "[]*Func")
+						}
+						tailOK := isSuppliedLen(sl.Low)
+						baseOK, genOK, extra := false, false, ""
+						for _, sv := range core.Sources(sl.X) {
+							if mk, ok := sv.(*ssa.MakeSlice); ok && isSuppliedLen(mk.Len) {
+								baseOK = true
+							}
+						}
+						for _, ap := range appendSites(ci.Parent(), sl.X) {
+							for _, e := range appendedValues(ap) {
+								ex, ok := e.(*ssa.Extract)
+								if !ok {
+									extra = "an element that is not a generator's result is appended"
+									continue
+								}
+								gc, ok := ex.Tuple.(*ssa.Call)
+								if !ok || gc.Common().IsInvoke() || gc.Common().StaticCallee() != nil || core.TypeStr(gc.Common().Value.Type()) != "ConverterGenFunc" {
+									extra = "an element that is not a generator's result is appended"
+									continue
+								}
+								genOK = true
+								for _, l := range p.ILits(ap.Block()) {
+									switch {
+									case core.IsLoopBound(l):
+									case l.Kind == "cmp" && l.Op == token.GTR:
+									case core.LitImpliesGreater(l, 0):
+									case l.Kind == "cmp" && l.Op == token.EQL && (core.IsNilConst(l.X) || core.IsNilConst(l.Y)):
+									default:
+										extra = l.String()
+									}
+								}
+							}
+						}
+						for _, l := range lits {
+							if !core.IsLoopBound(l) {
+								extra = l.String()
+							}
+						}
+						if tailOK && baseOK && genOK {
+							generated = extra == ""
+							whyG = ternary(generated, "every non-nil generated converter is collected and then added (the tail of the converter list after the supplied ones)", "registration is filtered by "+extra)
+						}
+					}
+				}
+			}
+			// receiver: an element of the list a private step collected from the generators (`generated, err := b.generate(g)`)
+			if ld, ok := recv.(*ssa.UnOp); ok && !generated {
+				if ia, ok := ld.X.(*ssa.IndexAddr); ok {
+					if ex, ok := ia.X.(*ssa.Extract); ok {
+						if hc, ok := ex.Tuple.(*ssa.Call); ok {
+							if h := hc.Common().StaticCallee(); h != nil && p.PrivateHelper(h) {
+								genOK, extra := false, ""
+								for _, hr := range core.Returns(h) {
+									if ex.Index >= len(hr.Results) {
+										continue
+									}
+									if k, isK := hr.Results[ex.Index].(*ssa.Const); isK && k.Value == nil {
+										continue // the error exits
+									}
+									for _, ap := range appendSites(h, hr.Results[ex.Index]) {
+										for _, e := range appendedValues(ap) {
+											ge, ok := e.(*ssa.Extract)
+											if !ok {
+												extra = "an element that is not a generator's result is collected"
+												continue
+											}
+											gc, ok := ge.Tuple.(*ssa.Call)
+											if !ok || gc.Common().IsInvoke() || gc.Common().StaticCallee() != nil || core.TypeStr(gc.Common().Value.Type()) != "ConverterGenFunc" {
+												extra = "an element that is not a generator's result is collected"
+												continue
+											}
+											genOK = true
+											for _, l := range core.Lits(core.Guards(ap.Block())) {
+												switch {
+												case core.IsLoopBound(l):
+												case l.Kind == "cmp" && l.Op == token.GTR:
+												case core.LitImpliesGreater(l, 0):
+												case l.Kind == "cmp" && l.Op == token.EQL && (core.IsNilConst(l.X) || core.IsNilConst(l.Y)):
+												default:
+													extra = l.String()
+												}
+											}
+										}
+									}
+								}
+								for _, l := range lits {
+									switch {
+									case core.IsLoopBound(l):
+									case l.Kind == "cmp" && l.Op == token.GTR:
+									case core.LitImpliesGreater(l, 0):
+									case l.Kind == "cmp" && l.Op == token.EQL && (core.IsNilConst(l.X) || core.IsNilConst(l.Y)):
+									default:
+										extra = l.String()
+									}
+								}
+								if genOK {
+									generated = extra == ""
+									whyG = ternary(generated, "every non-nil generated converter is collected by a private step and then added", "registration is filtered by "+extra)
+								}
+							}
+						}
+					}
+				}
+			}
 			// the converter is added with its outputs
 			if k, ok := ci.Common().Args[len(ci.Common().Args)-1].(*ssa.Const); ok && k.Value != nil && k.Value.ExactString() != "true" {
 				supplied, whyS = false, "converter added without its outputs"
